@@ -252,6 +252,44 @@ def attach_events(ctx):
     _wrap(verif.metric.Contingency, "_compute_abcd", _compute_abcd_post)
 
 
+def _get_scores_post(self, fields, input_index, result, axis=None, axis_index=None):
+    """No NaN/inf inside a non-empty result (except the one-NaN 'no data' sentinel); equal lengths (C01/C04)."""
+    import numpy as np
+    _count("contract:get_scores")
+    try:
+        import verif.axis
+        res = result if isinstance(result, list) else [result]
+        if axis is None or axis == verif.axis.All():
+            shapes = set(np.shape(r) for r in res)
+            if len(shapes) > 1:
+                _viol("C01", "get_scores-shapes-differ", "fields returned with shapes %s" % (shapes,))
+            return True
+        lens = set(len(r) for r in res)
+        if len(lens) > 1:
+            _viol("C01", "get_scores-lengths-differ", "fields returned with lengths %s" % (lens,))
+        for r in res:
+            a = np.asarray(r, float)
+            if a.shape[0] == 1 and np.isnan(a[0]):
+                continue
+            if not np.all(np.isfinite(a)):
+                _viol("C04", "get_scores-returns-nonfinite", "get_scores(%s, input %s, %s, %s) returned NaN/inf among %d values"
+                      % ([f.name() for f in (fields if isinstance(fields, list) else [fields])], input_index,
+                         axis.name() if axis is not None else None, axis_index, a.shape[0]))
+    except Exception as ex:
+        _count("contract:error")
+        if _ctx is not None:
+            _ctx.note("get_scores contract error %r" % ex)
+    return True
+
+
+def attach_data(ctx):
+    import verif.data
+    set_ctx(ctx)
+    if not enabled():
+        return
+    _wrap(verif.data.Data, "get_scores", _get_scores_post)
+
+
 def detach_all():
     for (owner, name), orig in list(_attached.items()):
         setattr(owner, name, orig)
